@@ -7,6 +7,8 @@ stdin : {"cases": [{"store": spec, "ops": [...]}, ...], "opts": {...}}
 stdout: {"cases": [[obs_per_op...], ...]}
 """
 import sys, json, itertools
+if hasattr(sys, "set_int_max_str_digits"):
+    sys.set_int_max_str_digits(0)        # histories with a cyclic data flow square their values: huge ints are printed and compared
 import xdeps as xd
 import xdeps.tasks as xt
 from xdeps.tasks import ExprTask, FunctionTask, LinearKnob
@@ -253,7 +255,7 @@ def dv(v):
 
 def fsum(c):
     if isinstance(c, (dict, FUserDict)):
-        vals = list(c.values())
+        vals = (list(dict.values(c)) if isinstance(c, dict) else list(c.values()))
     elif isinstance(c, list):
         vals = list(c)
     elif type(c).__name__.startswith("FSlots_"):
@@ -269,7 +271,7 @@ def fsum(c):
 def fsum2(c):
     """reads only the first two members of the container"""
     if isinstance(c, (dict, FUserDict)):
-        vals = list(c.values())[:2]
+        vals = (list(dict.values(c)) if isinstance(c, dict) else list(c.values()))[:2]
     elif isinstance(c, list):
         vals = list(c)[:2]
     elif type(c).__name__.startswith("FSlots_"):
@@ -327,7 +329,7 @@ def build(spec):
 
 def flatten(obj, pre, out):
     if isinstance(obj, dict):          # FDict and AttrDict containers (dict VALUES are not generated)
-        for k, v in obj.items():
+        for k, v in dict.items(obj):
             flatten(v, pre + [ek(k)], out)
     elif isinstance(obj, FList):
         for i, v in enumerate(obj):
@@ -424,8 +426,82 @@ def assign(m, roots, path, value, route):
             owner[dk(key)] = value
         else:
             setattr(owner, key, value)
+    elif route == "toexpr" and isinstance(value, BaseRef):
+        ref._set_to_expr(value)          # the low-level route behind `ref[...] = expr`
     else:
         m.set_value(ref, value)
+
+
+def same_expr(a, b):
+    """structural equality of two expression trees through their constructor arguments (__reduce__), comparing literal
+    operands by TYPE and value (== on references compares printed forms, which drop the type of a literal)"""
+    if a is b:
+        return True
+    if isinstance(a, BaseRef) != isinstance(b, BaseRef):
+        return False
+    if not isinstance(a, BaseRef):
+        if type(a) is not type(b):
+            return False
+        if isinstance(a, (tuple, list)):
+            return len(a) == len(b) and all(same_expr(x, y) for x, y in zip(a, b))
+        if isinstance(a, dict):
+            return list(a) == list(b) and all(same_expr(a[k], b[k]) for k in a)
+        try:
+            import numpy as np
+            if isinstance(a, np.ndarray):
+                return a.shape == b.shape and a.dtype == b.dtype and bool(np.array_equal(a, b, equal_nan=a.dtype.kind in "fc"))
+            r = a == b
+            return bool(r) or (a != a and b != b) or a is b
+        except Exception:
+            return a is b
+    if type(a) is not type(b):
+        return False
+    if isinstance(a, Ref):
+        return a._owner is b._owner and a._key == b._key
+    ra, rb = a.__reduce__(), b.__reduce__()
+    return ra[0] is rb[0] and same_expr(tuple(ra[1]), tuple(rb[1]))
+
+
+def typed_literals(m):
+    """does some definition hold a literal whose printed form does not read back as the same object (Decimal, Fraction,
+    numpy scalars, user numbers)?  dump()/load() is a TEXT round trip and cannot carry those."""
+    def lit(x):
+        if isinstance(x, BaseRef):
+            if isinstance(x, Ref):
+                return False
+            return any(lit(a) for a in x.__reduce__()[1])
+        if isinstance(x, (tuple, list)):
+            return any(lit(a) for a in x)
+        if isinstance(x, dict):
+            return any(lit(a) for a in x.values())
+        return not (x is None or type(x) in (int, float, str, bool, StrSub, IntSub) or callable(x) or isinstance(x, xd.Manager))
+    return any(lit(t.expr) for t in m.tasks.values() if isinstance(t, ExprTask))
+
+
+def load_definitions(m, m2, roots2):
+    """the definitions of m put into the fresh manager m2 (same labels, other containers): through the text dump when it
+    carries everything, otherwise by rebuilding every expression node from its constructor arguments"""
+    if not typed_literals(m):
+        m2.load(m.dump())
+        return
+
+    def rebuild(x):
+        if isinstance(x, BaseRef):
+            if isinstance(x, Ref):
+                return roots2[x._key]
+            cls, args = x.__reduce__()[:2]
+            return cls(*[rebuild(a) for a in args])
+        if x is m:
+            return m2
+        if isinstance(x, tuple):
+            return tuple(rebuild(a) for a in x)
+        if isinstance(x, list):
+            return [rebuild(a) for a in x]
+        if isinstance(x, dict):
+            return {k: rebuild(a) for k, a in x.items()}
+        return x
+    for t in list(m.tasks.values()):
+        m2.register(ExprTask(rebuild(t.taskid), rebuild(t.expr)))        # what load() does with each pair: no evaluation
 
 
 def ref_path(r):
@@ -459,7 +535,7 @@ def mkexpr(roots, e):
         return mkref(roots, e[1])
     if k == "bin":
         a, b = mkexpr(roots, e[2]), mkexpr(roots, e[3])
-        return a + b if e[1] == "+" else a - b if e[1] == "-" else a * b if e[1] == "*" else a % b if e[1] == "%" else a // b
+        return a + b if e[1] == "+" else a - b if e[1] == "-" else a * b if e[1] == "*" else a % b if e[1] == "%" else a ** b if e[1] == "**" else a // b
     if k in ("callsum", "callsum2"):
         return mkref(roots, e[1])(mkref(roots, e[2]))
     if k == "proj":
@@ -695,6 +771,20 @@ def _find_tasks(self, start_deps=None):
 xt.Manager.find_tasks = _find_tasks
 
 
+def put_back_data(roots_data, saved):
+    """the real root containers get the contents of a saved deep copy (the objects the references point to stay)"""
+    import copy
+    for label, root in roots_data.items():
+        snap = copy.deepcopy(saved[label])
+        if isinstance(root, dict):
+            dict.clear(root)
+            for k, v in dict.items(snap):
+                dict.__setitem__(root, k, v)
+        else:
+            root.__dict__.clear()
+            root.__dict__.update(vars(snap))
+
+
 def gen_fun_check(m, roots, roots_data, arg_paths, values, obs):
     """C13: g = manager.gen_fun('g', x0=ref0, ...); g(v0, ...) on the real containers, compared with a
     twin manager (same definitions, copied containers) on which the values are assigned through
@@ -752,16 +842,7 @@ def gen_fun_check(m, roots, roots_data, arg_paths, values, obs):
     # the manager route on THIS manager (not a freshly loaded one: hidden state of the manager under test counts): the real
     # containers are put back to their contents before the call, then the values are assigned through m
     if not res.get("twin_err"):
-        def put_back(saved):
-            for label, root in roots_data.items():
-                snap = copy.deepcopy(saved[label])
-                if isinstance(root, dict):
-                    dict.clear(root)
-                    for k, v in snap.items():
-                        dict.__setitem__(root, k, v)
-                else:
-                    root.__dict__.clear()
-                    root.__dict__.update(vars(snap))
+        put_back = lambda saved: put_back_data(roots_data, saved)
         data_after_g = copy.deepcopy(roots_data)
         put_back(data0)
         keep = list(TRACE)
@@ -839,7 +920,7 @@ def pickle_check(m, roots_data, followups):
         def walk(o, pre):
             out.append((pre, type(o).__name__))
             if isinstance(o, dict):
-                for k, v in o.items():
+                for k, v in dict.items(o):
                     walk(v, pre + "/" + str(ek(k)))
             elif isinstance(o, FUserDict):
                 for k, v in o.data.items():
@@ -909,6 +990,17 @@ def clone_check(m, clones, roots, roots_data, followups, redefine=None):
     res = {"problems": []}
     if not clones:
         return res
+    data_before = copy.deepcopy(roots_data)
+    try:
+        return _clone_check(m, clones, roots, roots_data, followups, redefine, res)
+    finally:
+        # the clone writes into the SHARED containers: what it wrote is taken back, so that the original manager goes on
+        # from data that agrees with its own definitions
+        put_back_data(roots_data, data_before)
+
+
+def _clone_check(m, clones, roots, roots_data, followups, redefine, res):
+    import copy
     c = clones[-1]
     if not all(isinstance(t, ExprTask) for t in c.tasks.values()):
         return {"skipped": "non-expression tasks"}
@@ -917,12 +1009,21 @@ def clone_check(m, clones, roots, roots_data, followups, redefine=None):
     except Exception as e:
         res["problems"].append(f"verify() of the clone raised {type(e).__name__}: {str(e)[:80]}")
     croots = dict(c.containers)
+    # the original went on writing into the shared containers under ITS definitions: the data is first brought in line with
+    # the clone's definitions (every task of the clone run once, producers first), as a freshly loaded manager does
+    try:
+        allt = c.find_tasks()
+        if order_cycle(allt):
+            res["cycle"] = True
+        c.run_tasks(allt)
+    except Exception as e:
+        return {"skipped": "the clone's definitions do not evaluate on the current data: " + exc_name(e)}
     for p, v in followups:
         data2 = copy.deepcopy(roots_data)
         m2 = xd.Manager()
         roots2 = make_roots(m2, data2)
         try:
-            m2.load(c.dump())
+            load_definitions(c, m2, roots2)
         except Exception as e:
             res["problems"].append(f"dump of the clone does not load: {type(e).__name__}"); break
         e1 = e2 = None
@@ -970,7 +1071,7 @@ def fresh_check(m, roots, roots_data, leaves, followups):
     data2 = copy.deepcopy(roots_data)
     m2 = xd.Manager()
     roots2 = make_roots(m2, data2)
-    m2.load(m.dump())
+    load_definitions(m, m2, roots2)
     if m._tree_frozen:
         m2.freeze_tree()          # the fresh manager is put in the same frozen state
     res = {"queries": [], "followup": [], "cycle": False}
@@ -1050,8 +1151,15 @@ def run_case(case, opts):
                 route = op[3] if len(op) > 3 else "sv"
                 if op[2][0] == "plain":
                     assign(m, roots, op[1], dv(op[2][1]), route)
+                    if ref._expr is not None:
+                        obs["defn"] = f"{ref} still has the definition {ref._expr} after a plain value was assigned"
                 else:
-                    assign(m, roots, op[1], mkexpr(roots, op[2][1]), route)
+                    assigned = mkexpr(roots, op[2][1])
+                    assign(m, roots, op[1], assigned, route)
+                    # the definition of the location is now the expression that was assigned (the object itself or a
+                    # structurally equal one, literal TYPES included) - not an earlier one that merely prints the same
+                    if not same_expr(ref._expr, assigned):
+                        obs["defn"] = f"{ref} was assigned {assigned} but its definition is {ref._expr!r} (literal types compared)"
             elif kind == "inplace":
                 ref = mkref(roots, op[1])
                 sd_refs = ref._get_dependencies()
@@ -1192,6 +1300,8 @@ def run_case(case, opts):
                 orc["inconsistent"] = consistency(m)
                 if kind in ("set", "inplace") and not (orc.get("trace") or {}).get("cycle"):
                     orc["fun_inconsistent"] = fun_consistency(m, obs["trace"])
+        if obs.get("defn") and obs["err"] is None:
+            orc["defn"] = obs["defn"]
         obs["oracle"] = orc
         FAULT["n"] = saved
         FAULT["rn"] = saved_r
